@@ -97,12 +97,41 @@ class Obligation:
                 s.add(c)
             if not L.exact:
                 self.exact = False
+        self._solver = s
         txt = s.to_smt2()
         # z3 emits (check-sat); add get-model
         txt = txt.replace('(set-info :status unknown)\n', '')
         self.smt = txt + '(get-model)\n'
         self.hash = hashlib.sha256(self.smt.encode()).hexdigest()[:16]
         return self
+
+
+def inprocess(o, timeout_ms=3000):
+    """try to decide an obligation with the in-process z3 (same 5.1 library as z3-new); used for the
+    thousands of tiny path obligations where process start-up would dominate"""
+    s = getattr(o, '_solver', None)
+    if s is None:
+        return False
+    s.set('timeout', timeout_ms)
+    t0 = time.time()
+    r = str(s.check())
+    o.time = time.time() - t0
+    if r == 'unsat':
+        o.result, o.solver, o.model, o.msg = 'unsat', 'z3py', None, ''
+        return True
+    if r == 'sat':
+        mdl = s.model()
+        model = {}
+        for d in mdl.decls():
+            if d.arity() == 0:
+                v = mdl[d]
+                try:
+                    model[d.name()] = v.as_long() if not z3.is_bool(v) else z3.is_true(v)
+                except Exception:
+                    pass
+        o.result, o.solver, o.model, o.msg = 'sat', 'z3py', model, ''
+        return True
+    return False
 
 
 def _parse_model(out):
